@@ -31,6 +31,59 @@ func isSym(v Value) bool {
 	return ok
 }
 
+func isSymF(v Value) bool {
+	_, ok := v.(SymF)
+	return ok
+}
+
+// fpTerm gives the floating-point term of a float64 value (concrete or symbolic).
+func fpTerm(v Value) *Term {
+	switch x := v.(type) {
+	case SymF:
+		return x.t
+	case float64:
+		return mkFPConst(x)
+	}
+	panic(fmt.Sprintf("fpTerm %T", v))
+}
+
+func symFloat(t *Term) Value {
+	if c, ok := fpConstOf(t); ok {
+		return c
+	}
+	return SymF{t}
+}
+
+func requireFloat64(t types.Type) {
+	if b, ok := t.Underlying().(*types.Basic); ok && b.Kind() == types.Float32 {
+		unsup("symbolic float32")
+	}
+}
+
+func (in *Interp) floatBinop(op token.Token, t types.Type, a, b Value) Value {
+	requireFloat64(t)
+	x, y := fpTerm(a), fpTerm(b)
+	switch op {
+	case token.ADD:
+		return symFloat(mkFPArith(OFPAdd, x, y))
+	case token.SUB:
+		return symFloat(mkFPArith(OFPSub, x, y))
+	case token.MUL:
+		return symFloat(mkFPArith(OFPMul, x, y))
+	case token.QUO:
+		return symFloat(mkFPArith(OFPDiv, x, y))
+	case token.LSS:
+		return symBool(mkFPCmp(OFPLt, x, y))
+	case token.LEQ:
+		return symBool(mkFPCmp(OFPLe, x, y))
+	case token.GTR:
+		return symBool(mkFPCmp(OFPLt, y, x))
+	case token.GEQ:
+		return symBool(mkFPCmp(OFPLe, y, x))
+	}
+	panic("sym float op " + op.String())
+}
+
 // eqTerm builds the Bool term for Go's == on two values of static type t.
 func (in *Interp) eqTerm(a, b Value, t types.Type) *Term {
 	switch x := a.(type) {
@@ -50,7 +103,12 @@ func (in *Interp) eqTerm(a, b Value, t types.Type) *Term {
 		}
 		return mkEq(toTerm(a, w), toTerm(b, w))
 	case float64:
+		if isSymF(b) {
+			return mkFPCmp(OFPEq, fpTerm(a), fpTerm(b))
+		}
 		return mkBool(x == b.(float64))
+	case SymF:
+		return mkFPCmp(OFPEq, x.t, fpTerm(b))
 	case complex128:
 		return mkBool(x == b.(complex128))
 	case string, *SStr, *FD:
@@ -133,6 +191,9 @@ func (in *Interp) binop(op token.Token, t types.Type, a, b Value, tb types.Type,
 	}
 	if isSym(a) || isSym(b) {
 		return in.symBinop(op, t, a, b, tb, site)
+	}
+	if isSymF(a) || isSymF(b) {
+		return in.floatBinop(op, t, a, b)
 	}
 	switch x := a.(type) {
 	case Int:
@@ -404,13 +465,30 @@ func (in *Interp) convert(from, to types.Type, v Value, site ssa.Instruction) Va
 			in.assumeASCIIRune(sv.t)
 			return strFromBytes([]*Term{mkExtract(sv.t, 7, 0)})
 		}
-		if isFloat(to) {
-			unsup("conversion of symbolic integer to float")
+		if isFloat(to) && isInt(from) {
+			requireFloat64(to)
+			_, sf := width(from)
+			return symFloat(mkFPOfInt(sv.t, sf))
 		}
 		if isBool(to) {
 			return v
 		}
 		unsup("conversion of symbolic %v to %v", from, to)
+	}
+	if fv, ok := v.(SymF); ok {
+		switch {
+		case isFloat(to):
+			requireFloat64(to)
+			return v
+		case isInt(to):
+			// Go leaves out-of-range conversions implementation-defined; amd64 (the platform the repository is built and
+			// replayed on) yields MinInt64. Only int64/int are modelled.
+			if w, signed := width(to); w == 64 && signed {
+				return symInt(mkFPToInt64(fv.t), true)
+			}
+			unsup("conversion of symbolic float to %v", to)
+		}
+		unsup("conversion of symbolic float to %v", to)
 	}
 	switch {
 	case isInt(to):
